@@ -4,7 +4,7 @@
 # registered check against it in /repo (applied, checked, reverted), and files it under /verif/seeded/<seed-id>.
 set -u
 IN=$1; ID=$2; PROP=$3; TIER=${4:-quick}
-export GOFLAGS=-mod=mod GOPROXY=off GOSUMDB=off GOTOOLCHAIN=local
+export VERIF_NO_EVIDENCE=1 GOFLAGS=-mod=mod GOPROXY=off GOSUMDB=off GOTOOLCHAIN=local
 WT=/tmp/confirm-wt-$ID
 git -C /repo worktree remove --force $WT 2>/dev/null
 BASE=HEAD
